@@ -722,13 +722,15 @@ def run(rep):
                "distinct_nontrivial = accepted (spec, operand, value) triples whose expected text differs from str(value), plus timing "
                "designs with at least one active edge")
     rep.setcov("timing_sequence_length", {"register_init_0": rep.pick(3, 4), "other_register_inits": rep.pick(2, 3)})
-    rep.require(rep.cov.get("accepted", 0) > 0 and rep.cov.get("rejected", 0) > 0, "both accepted and rejected specifications")
-    rep.require(rep.cov.get("grammar_valid", 0) > 0 and rep.cov.get("grammar_invalid", 0) > 0, "grammar oracle says valid and invalid")
-    rep.require(rep.cov.get("print_texts_compared", 0) > 0, "Print texts compared")
-    rep.require(rep.cov.get("assert_texts_compared", 0) > 0, "Assert messages compared")
+    # crashed / timed-out tasks are reported as violations; the coverage guards are meaningless then
+    guards = not (rep.cov.get("tasks_crashed", 0) or rep.cov.get("tasks_timed_out", 0))
+    rep.require(not guards or rep.cov.get("accepted", 0) > 0 and rep.cov.get("rejected", 0) > 0, "both accepted and rejected specifications")
+    rep.require(not guards or rep.cov.get("grammar_valid", 0) > 0 and rep.cov.get("grammar_invalid", 0) > 0, "grammar oracle says valid and invalid")
+    rep.require(not guards or rep.cov.get("print_texts_compared", 0) > 0, "Print texts compared")
+    rep.require(not guards or rep.cov.get("assert_texts_compared", 0) > 0, "Assert messages compared")
     for key in ("timing_active_edges", "timing_inactive_edges", "timing_no_edge", "timing_prints", "timing_stops",
                 "timing_active_edges_nothing_enabled", "timing_both_domains_edge", "timing_rst_events"):
-        rep.require(rep.cov.get(key, 0) > 0, f"{key} never exercised")
+        rep.require(not guards or rep.cov.get(key, 0) > 0, f"{key} never exercised")
     rep.assume("Python's built-in format() is the reference for the text (as the property statement says)")
     rep.assume("Part A catches the AssertionError at the ctx.set that produced the edge (same exception object that run() propagates); "
                "Part B and every reported case observe the exception raised by Simulator.run() itself")
@@ -756,13 +758,8 @@ def _interleave(rep):
         fams.setdefault(_family(v["sig"]), []).append(v)
     out = []
     lists = [fams[k] for k in sorted(fams, key=str)]
-    i = 0
-    while any(lists):
-        for lst in lists:
-            if i < len(lst):
-                out.append(lst[i])
-        i += 1
-        lists = [lst for lst in lists if i < len(lst)] if not any(i < len(lst) for lst in lists) else lists
+    for i in range(max((len(lst) for lst in lists), default=0)):
+        out.extend(lst[i] for lst in lists if i < len(lst))
     rep.violations[:] = out
 
 
